@@ -44,12 +44,13 @@ func batchP(tag string, root Cfg, subs []Cfg, profs []*Profile) {
 				e.profile = p
 			}
 		}
+		e.dangling = s.Profile != "" && e.profile == nil
 		ents = append(ents, e)
 	}
 	var used []*Profile
 	for _, p := range profs {
 		for _, e := range ents {
-			if e.profile == p {
+			if e.profile == p || (e.dangling && strings.EqualFold(e.cfg.Profile, p.Name)) {
 				used = append(used, p)
 				break
 			}
@@ -536,6 +537,16 @@ func exhaustiveCert(g *gen) {
 		subs = append(subs, s)
 		batch("c16-exh", plainRoot(), subs)
 	case "c19":
+		{
+			// two profiles whose names differ only in capitalisation and a reference spelled in a third way: an unknown profile
+			a := &Profile{Name: "TLS-Server", Exts: []PExt{{Ext: Ext{Kind: "custom", Oid: "1.2.3.4.1", Raw: "!null", Crit: -1}}}}
+			b := &Profile{Name: "tls-server", Exts: []PExt{{Ext: Ext{Kind: "custom", Oid: "1.2.3.4.2", Raw: "!empty", Crit: -1}}}}
+			w := plainSub(1)
+			w.Profile = "TLS-SERVER"
+			ok := plainSub(2)
+			ok.Profile = "tls-server"
+			batchP("c19-profile-name-case", plainRoot(), []Cfg{ok, w}, []*Profile{a, b})
+		}
 		{
 			// witness of the recorded finding F29 (an arc of 2^31 and more is written but cannot be read back)
 			w := plainSub(0)
